@@ -109,6 +109,13 @@ func concStress(args []string) *Result {
 						return
 					}
 				}
+				// a build of its own next to the others: a small project whose response codes no build of this process has
+				// seen before (whatever the library remembers per keyword is written for the first time here, concurrently)
+				fresh := fmt.Sprintf("JSIGHT 0.3\nGET /fresh%d\n  %d any\n  %d any\n", g, 201+(round*G+g)%398, 201+(round*G+g+199)%398)
+				if _, okf, msgf := (projSrc{name: "fresh-codes", text: fresh}).build(); !okf {
+					record(concEvent{Ev: "call", G: g, Seq: 0, Project: "fresh-codes", Acc: "Build", Digest: "rejected:" + msgf, Want: "accepted", Phase: "independent"})
+					return
+				}
 				j, ok, msg := b.src.build()
 				if !ok {
 					record(concEvent{Ev: "call", G: g, Seq: 0, Project: b.src.name, Acc: "Build", Digest: "rejected:" + msg, Want: "accepted", Phase: "independent"})
